@@ -36,6 +36,28 @@ def run(ctx):
                 p = rng.choice([q for q in POINTS if hits.get(q, 0) > 0])
                 kills.append({"point": p, "at": rng.range(1, hits[p]), "flush_first": rng.chance(1, 2)})
             cases.append({"mode": "crash", "name": f"w{i}-chain{j}-" + "+".join(f"{k['point']}@{k['at']}" for k in kills), "base": w, "kills": kills, "resume": True})
+    for c in cases:
+        c["base"] = dict(c["base"], tail=rng.choice([0, 0, 1, 2]), verify=rng.choice(["", "last", "all"]))
+    # hand-made partial states: every subset of marked chunks of a 6-chunk file (non-prefix shapes, one hole, only last missing ...)
+    from checks import e2egen as E
+    prior_cases = []
+    for mask in range(1, 64):
+        marked = [i for i in range(6) if mask >> i & 1]
+        if ctx.tier == "quick" and rng.chance(1, 2):
+            continue
+        for tail in (0, 1, 2):
+            prior_cases.append({"name": f"prior-{mask:06b}-tail{tail}", "files": [{"p": "six.bin", "n": 6 * 32 - 3, "s": mask}, {"p": "o.bin", "n": 40, "s": 1}], "chunk": 32,
+                                "streams": rng.choice([1, 2, 3]), "transport": rng.choice(["netsim", "mock"]), "noroot": True, "resume": True, "tail": tail,
+                                "prior": [{"file": "six.bin", "chunks": marked}], "timeout_ms": 5000})
+    prc, pres = E.run_xfer(ctx, exe, "priors", prior_cases, timeout=900)
+    for c, r in zip(prior_cases, pres):
+        rep = {"case": c, "result": r}
+        if r.get("hang"):
+            ctx.violation("C04:resume-hangs", f"resume from marked chunks {c['prior'][0]['chunks']} (tail {c['tail']}) did not terminate: {r['hang']}", rep)
+        elif not (r.get("sender_ok") and r.get("recv_ok")):
+            ctx.violation("C04:resume-fails", f"resume from marked chunks {c['prior'][0]['chunks']} (tail {c['tail']}) failed: {r.get('sender_err')!r} / {r.get('recv_err')!r}", rep)
+        elif not r.get("equal"):
+            ctx.violation("C04:resume-wrong-tree", f"resume from marked chunks {c['prior'][0]['chunks']} (tail {c['tail']}) succeeded with a wrong tree: {r.get('diff')}", rep)
     rc, results = G.run_cases(ctx, exe, "chains", cases, timeout=1700)
     if rc != 0 or len(results) != len(cases):
         ctx.oblige("harness:chain-run", False, f"rc={rc} results={len(results)}/{len(cases)} {ctx.harness_stderr[-300:]}")
@@ -62,12 +84,13 @@ def run(ctx):
             nfiles = len(c["base"]["files"])
             if marked > 0:
                 saved += 1
-            # finished work is not requested again: frames sent <= chunks not marked (+ at most one verification re-send per file)
-            if sent > allc - marked + nfiles:
+            # finished work is not requested again: frames sent <= chunks not marked (+ per file at most one verification re-send and the `tail` last marked chunks the sender is configured to re-send)
+            if sent > allc - marked + nfiles * (1 + c['base'].get('tail', 0)):
                 ctx.violation("C04:finished-work-resent", f"{c['name']}: {marked} of {allc} chunks were marked on disk but the resumed run sent {sent} frames", rep)
     ctx.coverage.update({
-        "evaluations": len(cases) + len(wl), "distinct_nontrivial": resumed,
-        "rule": "workloads as in C05; per workload seeded chains of 1-3 kills at random hits of 8 hook points (receiver before/after write, after mark, between temp write and rename, after rename, before finalize; "
+        "evaluations": len(cases) + len(wl) + len(prior_cases), "distinct_nontrivial": resumed + sum(1 for r in pres if r.get("equal")),
+        "prior_state_resumes": len(prior_cases),
+        "rule": "resumes from hand-made on-disk states: every (quick: half of all) subset of marked chunks of a 6-chunk file x sender tail {0,1,2}; workloads as in C05; per workload seeded chains of 1-3 kills at random hits of 8 hook points (receiver before/after write, after mark, between temp write and rename, after rename, before finalize; "
                 "sender before chunk, before FileEnd), half of them with the flusher firing at the kill instant; after the chain an uninterrupted resumed run into the same directory must return nil on both sides with an "
                 "identical tree and send at most (unmarked chunks + one re-send per file) frames. non-trivial = chains whose resumed run succeeded",
         "samples": [cases[0]["name"], cases[-1]["name"]],
